@@ -24,6 +24,13 @@ Record sd_struct := {
   sd_gkdi_order : bool   (* components are laid out contiguously behind the header in the order Sacl, Dacl, Owner, Group *)
 }.
 
+(* 2.4.2.4 well-known SIDs *)
+Definition LOCAL_SYSTEM : dsid := {| d_rev := 1; d_auth := 5; d_subs := [18] |}.   (* S-1-5-18 *)
+Definition EVERYONE : dsid := {| d_rev := 1; d_auth := 1; d_subs := [0] |}.        (* S-1-1-0 *)
+(* 2.4.4.1 AceType, 2.4.5 AclRevision *)
+Definition ACCESS_ALLOWED_ACE_TYPE : Z := 0.
+Definition ACL_REVISION : Z := 2.
+
 Definition obind {A B} (o : option A) (f : A -> option B) : option B :=
   match o with Some a => f a | None => None end.
 Notation "'let?' x ':=' m 'in' f" := (obind m (fun x => f))
